@@ -82,21 +82,27 @@ def rebin(x, d, sample=False):
         sliceobj1 = [slice(None)]*len(d0)
         sliceobj = [slice(None)]*len(d)
         if d[k] > d0[k]:
-            f = d0[k]/d[k]
             for i in range(d[k]):
-                p = f*i
-                fp = int(floor(p))
+                #
+                # Output pixel i sits at p = i*d0/d in input pixel units.
+                # Split p into its integer part and remainder with exact
+                # integer arithmetic: the floating-point product (d0/d)*i
+                # can land just below an integer (e.g. (1/49)*49 < 1), and
+                # its floor then selects the wrong input pixel.
+                #
+                fp, rem = divmod(i*d0[k], d[k])
+                fp = int(fp)
                 sliceobj0[k] = slice(fp, fp + 1)
                 sliceobj[k] = slice(i, i + 1)
                 if sample:
                     r[tuple(sliceobj)] = xx[tuple(sliceobj0)]
                 else:
-                    if p < d0[k] - 1:
+                    if fp < d0[k] - 1:
                         sliceobj1[k] = slice(fp + 1, fp + 2)
                         rshape = r[tuple(sliceobj)].shape
                         r[tuple(sliceobj)] = (xx[tuple(sliceobj0)].reshape(rshape) +
-                                              (p - fp)*(xx[tuple(sliceobj1)] -
-                                                        xx[tuple(sliceobj0)]).reshape(rshape))
+                                              (rem/d[k])*(xx[tuple(sliceobj1)] -
+                                                          xx[tuple(sliceobj0)]).reshape(rshape))
                     else:
                         r[tuple(sliceobj)] = xx[tuple(sliceobj0)]
         elif d[k] == d0[k]:
